@@ -47,7 +47,11 @@ Amounts == {[txt |-> "10.00", m |-> "1000", neg |-> FALSE, s |-> 2], [txt |-> "-
             [txt |-> "$15.00", m |-> "1500", neg |-> FALSE, s |-> 2], [txt |-> "-$1.46", m |-> "146", neg |-> TRUE, s |-> 2],
             [txt |-> "0.05", m |-> "5", neg |-> FALSE, s |-> 2], [txt |-> "-0.5", m |-> "5", neg |-> TRUE, s |-> 1],
             [txt |-> "5", m |-> "5", neg |-> FALSE, s |-> 0], [txt |-> "1000000", m |-> "1000000", neg |-> FALSE, s |-> 0],
-            [txt |-> "12.3456", m |-> "123456", neg |-> FALSE, s |-> 4]}
+            [txt |-> "12.3456", m |-> "123456", neg |-> FALSE, s |-> 4],
+            \* more decimals than any configured precision: padding never removes or rounds digits
+            [txt |-> "0.00000001", m |-> "1", neg |-> FALSE, s |-> 8], [txt |-> "0.123456789", m |-> "123456789", neg |-> FALSE, s |-> 9],
+            [txt |-> "-1.000000000001", m |-> "1000000000001", neg |-> TRUE, s |-> 12],
+            [txt |-> "2000.00849834282314948585", m |-> "200000849834282314948585", neg |-> FALSE, s |-> 20]}
 Precisions == {-1, 0, 2, 4}      \* configured precision of the commodity (-1 = none)
 \* the configured account: what is printed must read back whatever its width (the layout keeps two blanks after it)
 Accounts == {"Assets:Src", "Expenses:Education:University:Tuition:Fee", "負債:クレジットカード:オカネカード:リボ払い専用"}
